@@ -254,6 +254,7 @@ ATOMS = dict(
     nameaddr_deep=[SP, CR, B("a"), B("<b>"), B(";"), B("="), B("\""), B(",")],
     nameaddr_quoted=[B("\""), B("\\"), B("a"), B("<b>"), CR, B(";"), SP],
     tokparam_quoted=[B("\""), B("\\"), B("a"), B("="), B(";"), SP],
+    urilists_known=[B("lr"), B("ttl"), B("Maddr"), B("="), B(";"), B("1"), B("&")],
     hdrnum=[SP, CR, LF, B("l:"), B("Expires:"), B("CSeq:"), B("123456789"), B("0"), B("9"), B(" ACK"), B("x")],
     quoted=[SP, HT, CR, LF, B("a"), B("\""), B("\\"), [127], [1], [200]],
 )
@@ -284,6 +285,8 @@ def cfgs_sub(start=(0,)):
                                            [k("urihdrs", flags=f, pcap=p) for f in (128, 136) for p in (0, 1, 2)]), 4, 5))
     fam.append(("urilists_deep", "tokparam_deep", st([k("uriparams", flags=f, pcap=p) for f in (64, 72) for p in (0, 1, 2)] +
                                            [k("urihdrs", flags=f, pcap=p) for f in (128, 136) for p in (0, 1, 2)]), 6, 8))
+    fam.append(("urilists_known", "urilists_known", st([k("uriparams", flags=f, pcap=p) for f in (64, 72) for p in (0, 1, 2)] +
+                                           [k("urihdrs", flags=136, pcap=1)]), 5, 6))        # known URI parameter names: the Types flags depend on the name TEXT
     fam.append(("skipquoted", "quoted", st([k("skipquoted")]), 6, 7))
     return fam
 
